@@ -106,3 +106,25 @@ Example c11_ex_retained :
   remove_if_complete ST_SUCCEEDED false true
     (is_complete ex_t None [SUBMITTED; STARTED; SUCCEEDED]) = Retained true.
 Proof. vm_compute. reflexivity. Qed.
+
+(* ---------- scheduler level: the pool automaton (Model/Pool.v) ---------- *)
+From Cylc Require Model.Pool Proofs.PoolProofs Proofs.PoolTheorems.
+
+(* In a real run a task leaves the pool "as completed" only if it is finished
+   and its completion expression (computed by the harness from the documented
+   rule, independently of cylc) is true over its completed outputs ... *)
+Theorem c11_pool_removed_as_complete_is_complete : forall c s t s',
+  Pool.step c s (Pool.ERemove t true) = Pool.Ok s' ->
+  exists p i, Pool.find_task (Pool.pool s) t = Some p /\ Pool.find_inst (Pool.c_insts c) t = Some i /\
+    Pool.is_final (Pool.p_status p) = true /\
+    Pool.cx_eval (Pool.has_out (Pool.p_outs p)) (Pool.i_comp i) = true.
+Proof. exact PoolTheorems.removed_as_complete_is_complete. Qed.
+
+(* ... and at the end of every main-loop iteration no finished task whose
+   completion expression is true is still in the pool. *)
+Theorem c11_pool_finished_complete_not_retained : forall c s snap hl hp s',
+  Pool.step c s (Pool.ETickEnd snap hl hp) = Pool.Ok s' ->
+  forall p i, In p (Pool.pool s) -> Pool.find_inst (Pool.c_insts c) (Pool.p_id p) = Some i ->
+    Pool.is_final (Pool.p_status p) = true ->
+    Pool.cx_eval (Pool.has_out (Pool.p_outs p)) (Pool.i_comp i) = false.
+Proof. exact PoolTheorems.finished_complete_not_retained. Qed.
